@@ -39,19 +39,24 @@ K_MATCH = 8.0         # matching, boundaries: K_MATCH * delta * gamma+^2 gamma-^
 #                       the conditioning of the shooting in v+: the residual T_shock(v+) - Tn is
 #                       only known to rtol*Tn while its signal is the heating (Tp - Tn)
 K_VMIN = 60.0         # |vMin difference| <= K_VMIN * (atol + rtol*vMin)
-K_LTE = 30.0          # |vwLTE difference| <= K_LTE * (atol + rtol*vw)
+K_LTE = 30.0          # |vwLTE difference| <= K_LTE * (atol + (rtol + atol/Tn)*vw)
 TOL_KAPPA = 0.15      # efficiency factor at the default rtol=atol=1e-6: both classes apply
 #                       Simpson's rule on solve_ivp's own adaptive steps, which limits the
 #                       accuracy of kappa to several % (measured: general 5.3%, template 2.2% off
 #                       the converged value at one point; worst difference between the classes
 #                       9.3% over ~1200 comparisons, hybrids just below vJ)
+K_KAPPA_T = 1500.0    # ... plus K_KAPPA_T*atol/Tn: atol is absolute, so at Tn ~ 5e-3 the
+#                       temperatures are only requested to 2e-4 (measured there: 21% in kappa)
 TIGHT = 1e-10         # ... so kappa is ALSO compared at rtol=atol=1e-10,
 TOL_KAPPA_TIGHT = 2e-3   # where the classes agree to 4.9e-4 (worst of 135 comparisons)
 
 
 # directed inputs replayed first on every run: exactly equal sound speeds (mu == nu)
 DIRECTED = [(dict(kind="template", alN=0.05, psiN=0.9, cb2=0.25, cs2=0.25, Tn=1.0),
-             [0.1239, 0.1779, 0.3, 0.45, 0.8])]
+             [0.1239, 0.1779, 0.3, 0.45, 0.8]),
+            # general solver: unconverged 2x2 solve returned as a matching
+            (dict(kind="template", alN=0.19354, psiN=0.571, cb2=0.202, cs2=0.3301, Tn=138.8),
+             [0.6952983303589946, 0.69])]
 
 
 def gen_params(rng):
@@ -180,11 +185,13 @@ def compare(ctx, case, stats, rng, n_vw, with_lte=True, with_kappa=True, vws=Non
             k = max(range(4), key=lambda i: rel(mg[i], mt[i]))
             # hybrids within 2% of the Jouguet velocity are reported as their own class
             nearJ = branch == "hybrid" and vw > 0.98 * min(hg.vJ, ht.vJ)
+            gsucc = bool(hg.success)
             fail("matching at vw=%.6g (%s, vJ=%.6g): %s general %.12g, template %.12g (rel "
                  "%.3g > %.3g)" % (vw, branch, ht.vJ, names[k], mg[k], mt[k], worst, tol),
-                 "matching-near-jouguet-hybrid" if nearJ else "matching",
+                 "general-unconverged-matching" if not gsucc else (
+                     "matching-near-jouguet-hybrid" if nearJ else "matching"),
                  vw=vw, general=mg, template=mt, quantity="matching",
-                 general_success=bool(hg.success))
+                 general_success=gsucc)
             continue
         bgf = [float(x) for x in bg]
         btf = [float(x) for x in bt]
@@ -202,7 +209,8 @@ def compare(ctx, case, stats, rng, n_vw, with_lte=True, with_kappa=True, vws=Non
             ctx.count("vwLTE", bucket="%s/%s" % (
                 "0" if lg == 0 else "1" if lg == 1 else "in", "0" if lt == 0 else
                 "1" if lt == 1 else "in"))
-            toll = K_LTE * (ATOL + RTOL * max(lg, lt))
+            # the temperature roots inside use the ABSOLUTE atol: accuracy atol/Tn
+            toll = K_LTE * (ATOL + (RTOL + ATOL / Tn) * max(lg, lt))
             stats.append(("vwLTE", abs(lg - lt) / toll, dict(case=case)))
             if abs(lg - lt) > toll:
                 fail("vwLTE: general %.12g, template %.12g" % (lg, lt), "vwLTE",
@@ -233,8 +241,9 @@ def compare(ctx, case, stats, rng, n_vw, with_lte=True, with_kappa=True, vws=Non
                 continue
             ctx.count("kappa", bucket="detonation" if vw > vJ2 else (
                 "hybrid" if vw > ht.cb else "deflagration"))
-            stats.append(("kappa", rel(kg, kt) / TOL_KAPPA, dict(case=case, vw=vw)))
-            if rel(kg, kt) > TOL_KAPPA:
+            tolk = TOL_KAPPA + K_KAPPA_T * ATOL / Tn
+            stats.append(("kappa", rel(kg, kt) / tolk, dict(case=case, vw=vw)))
+            if rel(kg, kt) > tolk:
                 fail("efficiency factor at vw=%.6g: general %.9g, template %.9g" % (
                     vw, kg, kt), "kappa", vw=vw, quantity="kappa")
             # the same comparison with both classes at tight tolerances
@@ -464,14 +473,15 @@ def run(ctx):
         "(1-psiN)/3 + 10^U(-3,-0.45) (transition towards the low-T phase), Tn = "
         "10^{-2..2} * U(0.5,2); per set wall velocities at vMin, near cb, just below/above "
         "vJ, 0.9..0.99, 0.99 and uniform; vwLTE once, efficiency factor on each branch, "
-        "both at the default rtol=atol=1e-6 (tolerance %g: Simpson on the ODE solver's own "
-        "steps limits kappa to a few %%) and at rtol=atol=1e-10 (tolerance %g); parameter "
+        "both at the default rtol=atol=1e-6 (tolerance %g + %g*atol/Tn: Simpson on the ODE "
+        "solver's own steps limits kappa to several %%) and at rtol=atol=1e-10 (tolerance "
+        "%g); parameter "
         "sets with alN <= (1-psiN)/3 are outside the quantifier (the high-T phase has the "
         "higher pressure at Tn: no transition); tolerances: vJ %g*(rtol+atol/Tn), matching "
-        "and boundaries %g*(rtol+atol/min(vp,Tp,Tm))*gamma+^2*gamma-^2, vwLTE "
-        "%g*(atol+rtol*vw); the measured worst difference/tolerance ratios are in "
+        "and boundaries %g*(rtol+atol/min(vp,Tp,Tm)+rtol/|Tp/Tn-1|)*gamma+^2*gamma-^2, vwLTE "
+        "%g*(atol+(rtol+atol/Tn)*vw), vMin %g*(atol+rtol*vMin); the measured worst difference/tolerance ratios are in "
         "coverage.worst_difference_over_tolerance; distinct = distinct (parameter set, vw)"
-        % (TOL_KAPPA, TOL_KAPPA_TIGHT, K_VJ, K_MATCH, K_LTE))
+        % (TOL_KAPPA, K_KAPPA_T, TOL_KAPPA_TIGHT, K_VJ, K_MATCH, K_LTE, K_VMIN))
     ctx.assumptions += [
         "both solvers agree on the shooting unknown v+ of deflagrations/hybrids (integration "
         "of the shock ODE: compared numerically, not proved)",
